@@ -157,9 +157,25 @@ def term_cases(res, rng, tier):
         nf = rng.randint(1, 4)
         factor_feats = tuple(j for j in range(nf) if rng.random() < 0.25)
         specs = gen_terms.gen_termlist(rng, nf, factor_feats, dyadic=dyadic, max_terms=4, max_n=10)
+        levels = None
+        if i % 5 == 0:
+            # a tensor term whose marginals are of DIFFERENT kinds but tie in size, lam and penalty name ('auto' resolves per kind:
+            # second differences / cyclic differences / ridge) -- each marginal must still get its own penalty
+            n = rng.randint(3, 5)
+            nf = max(nf, 3)
+            factor_feats = (2,)
+            levels = {2: n}
+            lam = [gen_terms.gen_lam(rng, dyadic)]
+            def sp(f_, basis):
+                return dict(kind='s', feature=f_, n_splines=n, spline_order=rng.randint(1, n - 1), lam=list(lam), penalties=['auto'],
+                            constraints=[None], basis=basis, by=None, dtype='numerical', edge_knots=None)
+            pool = [sp(0, 'ps'), sp(1, 'cp'), dict(kind='f', feature=2, lam=list(lam), penalties=['auto'], coding='one-hot')]
+            rng.shuffle(pool)
+            specs = [s for s in specs if s['kind'] in ('intercept',)][:1] + [dict(kind='te', margins=pool[:rng.choice([2, 3])], by=None)]
+            res.count('termlist: tensor with tied marginals of different kinds')
         try:
             tl = gen_terms.build_termlist(specs)
-            X = gen_terms.gen_X(rng, 12, nf, factor_feats)
+            X = gen_terms.gen_X(rng, 12, nf, factor_feats, levels=levels)
             tl.compile(X)
             if tl.n_coefs > 140:
                 continue
